@@ -205,6 +205,16 @@ func Direct(op func() string) (out string) {
 // Pool.ReleaseMessage does (Reset keeps the slice: `Options[:0]`).
 func NewPooled(kind string, optCap int) *pool.Message {
 	m := pool.NewMessage(context.Background())
+	if kind == "loaded" {
+		// a message that already carries a token and a body through the public setters, the way udp/client's response
+		// cache decodes a cached datagram into the response message that was prepared with the request's token
+		m.SetToken(message.Token{0xa1, 0xa2, 0xa3, 0xa4, 0xa5, 0xa6, 0xa7, 0xa8})
+		m.SetBody(bytes.NewReader([]byte("stale-body")))
+		m.SetCode(codes.Content)
+		m.SetType(message.Acknowledgement)
+		m.SetMessageID(0x4242)
+		return m
+	}
 	if kind == "recycled" {
 		var opts message.Options
 		if optCap > 0 {
